@@ -6,8 +6,8 @@
    hasNeededPermissions, handlePermissions, setupAccess, checkForEncryption: Model.v (hand transcription).
    denies_extract, denies_modify, spec_kind, spec_must_refuse, row_satisfies: Spec.v (ISO 32000-1 Table 22
      bits, revision 2 / revision >= 3 layouts; what each command does). *)
-From Coq Require Import ZArith NArith List Bool.
-From PV Require Import C26.Generated C26.Spec C26.Model C26.Proofs.
+From Coq Require Import ZArith NArith List Bool String.
+From PV Require Import C26.Generated C26.Spec C26.Model C26.Audit C26.Proofs.
 Import ListNotations.
 Open Scope Z_scope.
 
@@ -102,6 +102,39 @@ Theorem C26_known_unclassified_are_gaps : forall m, In m known_unclassified ->
   is_gap m = true.
 Proof. exact (proj1 (forallb_forall _ _) known_unclassified_are_gaps). Qed.
 Print Assumptions C26_known_unclassified_are_gaps.
+
+(* ---- which command mode is the permission check asked about?  Every pkg/api entry point stores a constant
+   in conf.Cmd; every pkg/cli constructor a constant in conf.Cmd and Command.Mode; dispatchTable maps modes to
+   handlers.  The tables regenerated from the source on every run are EQUAL to the audited ones (Audit.v:
+   each entry point with the mode its name / documentation says). *)
+Theorem C26_api_modes_audited :
+  api_entry_modes = map (fun x : string * (kind * list Z) => (fst x, snd (snd x))) audited_api.
+Proof. exact api_modes_audited. Qed.
+Print Assumptions C26_api_modes_audited.
+
+(* the name-free copy the extracted model answers the harness with is the same table *)
+Theorem C26_api_entry_mode_lists : api_entry_mode_lists = map snd api_entry_modes.
+Proof. exact api_entry_mode_lists_ok. Qed.
+Print Assumptions C26_api_entry_mode_lists.
+
+Theorem C26_cli_modes_audited :
+  cli_command_modes = audited_cli_commands /\ cli_dispatch = audited_cli_dispatch.
+Proof. exact cli_modes_audited. Qed.
+Print Assumptions C26_cli_modes_audited.
+
+Theorem C26_cli_cmd_is_mode : forall f c m, In (f, (c, m)) cli_command_modes -> m = [] \/ c = m.
+Proof. exact cli_cmd_is_mode. Qed.
+Print Assumptions C26_cli_cmd_is_mode.
+
+(* ... and for every audited pkg/api entry point the kind judged from its NAME (extract / modify / either /
+   free) equals the kind of the command mode it runs under, and that mode's row in the permission table asks
+   for the matching right (or the mode is refused on every encrypted file, or is a documented gap). *)
+Theorem C26_entry_point_kind_matches_mode : forall f k modes, In (f, (k, modes)) audited_api ->
+  forall mode, In mode modes ->
+  In mode all_modes /\ spec_kind mode = k /\
+  (row_satisfies k (perm_lookup perm_table mode) || rejectsEncrypted mode || listed known_unclassified mode) = true.
+Proof. exact entry_point_kind. Qed.
+Print Assumptions C26_entry_point_kind_matches_mode.
 
 (* non-vacuity: the table has extracting and modifying rows, both outcomes occur for both layouts,
    and the specification knows every command mode of the source *)
